@@ -7,7 +7,7 @@ Property theorems only (helper lemmas: `Proofs/BrokerFanout*.lean`).  Model:
 `srvSub`) over the retained trie of `Model/Topics.lean` and its finished
 theorems (`Properties/C06.lean`); specification: `Spec/Broker.lean`.
 -/
-import Mqtt.Proofs.BrokerFanoutSub
+import Mqtt.Proofs.BrokerFanoutHistory
 
 set_option linter.unusedSimpArgs false
 
@@ -222,6 +222,41 @@ theorem C08_other_topics_untouched_partial (b : B) (m : Msg) (hinv : Inv b)
       have := hperm.filter (fun e => !(e.1 == split m.p.topic))
       rw [List.filter_append, List.filter_filter] at this
       simpa using this
+
+/-! ### over histories: the most recent non-empty retained PUBLISH per topic -/
+
+/-- The specification's retained store, started empty and fed the accepted
+messages `ps` in order, holds for every topic `T` at most one message: that of
+the most recent PUBLISH with RETAIN = 1 on `T` if its payload is non-empty,
+nothing if that payload is empty (or there was no such PUBLISH). -/
+theorem C08_spec_most_recent (T : Bytes) (ps : List Pub) :
+    (specRets [] ps).filter (fun r => r.topic == T) =
+      match (ps.filter (fun p => p.retain && p.topic == T)).getLast? with
+      | some p => if p.payload.isEmpty then [] else [⟨T, p.qos, p.payload⟩]
+      | none => [] :=
+  specRets_char T ps
+
+/-- Histories.  From the initial state, along ANY sequence of moves - events
+that carry no application message (CONNECT, SUBSCRIBE, UNSUBSCRIBE, acks, pings,
+in-process Subscribe/Unsubscribe: `Act.ev`) interleaved with acceptances of
+messages on good valid topic names (`Act.pub`: `onPublish`) - the invariant
+holds and the retained trie holds exactly the specification's store for the
+accepted messages: by `C08_spec_most_recent`, per topic the most recent
+retained PUBLISH with a non-empty payload since the last empty one - topic, QoS
+and payload as received, no matter what happened in between. -/
+theorem C08_history_partial (acts : List Act) (hok : ∀ a ∈ acts, a.ok = true) :
+    Inv (acts.foldl actStep {}) ∧
+    RetInv (acts.foldl actStep {}).topics.rroot (specRets [] (pubsOf acts)) :=
+  acts_refine acts {} [] Inv_init RetInv_empty hok
+
+/-- non-vacuity: connect, retain "a" twice, subscribe, clear "a", retain "b", ping -/
+example :
+    let pub (t pl : Bytes) : Act := .pub ⟨{ qos := 1, retain := true, topic := t, pktid := 4, payload := pl }, false⟩
+    let acts : List Act := [.ev (exConnect 1 [97]), pub [97] [1], pub [97] [2], .ev (.packet 1 (.subscribe 1 [([35], 1)])),
+                            pub [97] [], pub [98] [3], .ev (.packet 1 .pingreq)]
+    (∀ a ∈ acts, a.ok = true) ∧ specRets [] (pubsOf acts) = [⟨[98], 1, [3]⟩] ∧
+    (absR (acts.foldl actStep {}).topics.rroot).map retOf = [([[98]], ⟨[98], 1, [3]⟩)] := by
+  decide
 
 /-! ### (h) a new subscription immediately receives exactly the matching retained messages -/
 
